@@ -241,14 +241,23 @@ def _horizon_after_extension(project, m) -> int:
 
 
 def _pinned(project) -> dict:
-    """User-provided start/end of leaf tasks per scenario, taken before schedule() touches anything."""
+    """Input dates of leaf tasks per scenario, taken before schedule() touches anything: the start/end the
+    user pinned on the task itself or on one of its containers (container dates are handed down as bounds)."""
     out = {}
     try:
         for sc in project.scenarios:
             scIdx = sc.sequenceNo - 1
             for t in project.tasks:
                 if t.leaf():
-                    out[(t.fullId, scIdx)] = (t.get("start", scIdx), t.get("end", scIdx))
+                    vals = set()
+                    node = t
+                    while node is not None:
+                        for a in ("start", "end"):
+                            v = node.get(a, scIdx)
+                            if v is not None:
+                                vals.add(v)
+                        node = node.parent
+                    out[(t.fullId, scIdx)] = vals
     except Exception:
         pass
     return out
@@ -272,15 +281,15 @@ def _disposition(project, pinned=None) -> dict:
             s, e = t.get("start", scIdx), t.get("end", scIdx)
             if t.get("scheduled", scIdx):
                 n_sched += 1
-                ps, pe = pinned.get((t.fullId, scIdx), (None, None))
+                inputs = pinned.get((t.fullId, scIdx), set())
                 if s is None or e is None:
                     bad.append([t.fullId, scIdx, "scheduled-without-dates", str(s), str(e)])
                 elif s > e:
-                    how = "|pinned-start-and-end" if (ps == s and pe == e) else ""
+                    how = "|pinned-start-and-end" if (s in inputs and e in inputs) else ""
                     bad.append([t.fullId, scIdx, "start>end" + how, str(s), str(e)])
                 elif st and en and (s < st or e > en):
                     off = [x for x in (s, e) if x < st or x > en]
-                    how = "|pinned-date" if all(x in (ps, pe) for x in off) else ""
+                    how = "|pinned-date" if all(x in inputs for x in off) else ""
                     bad.append([t.fullId, scIdx, "outside-horizon" + how, str(s), str(e)])
             else:
                 n_unsched += 1
